@@ -19,7 +19,7 @@ import re
 from .. import core
 from ..constraints import CONSTRAINTS
 from ..pyeval import Evaluator, UNKNOWN
-from ..pymodel import PyModel, string_properties, strip_docstring, parse_ann
+from ..pymodel import PyModel, string_properties, strip_docstring, parse_ann, find_match
 from ..pyscope import bound_in_block
 from ..tmodel import TemplateSet, cover, SymDict
 
@@ -541,7 +541,81 @@ def check_import_closure(report, pm: PyModel):
             "flattened parameter types (or all recursive field types) must be included")
 
 
+def check_subpackage_listing(report, pm: PyModel):
+    """C01.9: under `%sub`, the generator emits a types module / service package only for protos / services whose sub-package EQUALS the
+    view being rendered, while `api.protos` / `api.services` of a view also contain those of deeper sub-packages. Every emitted import whose
+    module path is filled from an element of those collections must therefore carry the same equality as a guard (or put the element's own
+    sub-package into the path), otherwise the parent package imports modules that only exist below the sub-package."""
+    import re as _re
+    r9 = report.rule("C01.9", "imports filled from api.protos / api.services elements carry the generator's sub-package emission predicate", floor=4)
+    rt = pm.func("gapic.generator.generator.Generator._render_template")
+    for kind, var in (("%proto", "proto"), ("%service", "service")):
+        node, _ = find_match(f"skip_subpackages and {var}.meta.address.subpackage != api_schema.subpackage_view", rt.node)
+        r9.need(node is not None, f"_render_template: skip predicate for {kind} under %sub",
+                "the generator no longer restricts per-proto / per-service files to the view's own sub-package: re-derive this rule")
+    from ..skq import Lib
+    roots = [core.TEMPLATES] + ([core.ADS_TEMPLATES] if report.tier == "thorough" else [])
+
+    def elem_of(c):
+        """'ELEM(api.protos...)' prefix of a canon that reads `.module_name` / `.name` of an element of api.protos / api.services"""
+        if not c or not c.startswith(("ELEM(api.protos", "ELEM(api.services")):
+            return None
+        depth = 0
+        for i, ch in enumerate(c):
+            if ch == "(":
+                depth += 1
+            elif ch == ")":
+                depth -= 1
+                if depth == 0:
+                    rest = c[i + 1:]
+                    if _re.match(r"\.(module_name|name)(\||$)", rest):
+                        return c[:i + 1]
+                    return None
+        return None
+    for root in roots:
+        lib = Lib(root)
+        for tname in lib.ts.public_names():
+            if not tname.endswith(".py.j2") or tname.startswith(("tests/", "examples/")):
+                continue
+            seen = set()
+            for sk in lib.variants(tname, transport=("grpc", "rest")):
+                tree = sk.tree()
+                if tree is None:
+                    continue
+                for n in ast.walk(tree):
+                    if not isinstance(n, ast.ImportFrom) or not n.module:
+                        continue
+                    canons = [sk.holes.get(h) for h in _re.findall(r"H\d+_", n.module)]
+                    hits = [elem_of(c) for c in canons if elem_of(c)]
+                    if not hits:
+                        continue
+                    e = hits[0]
+                    key = (tname, e, sk.describe(n.module))
+                    if key in seen:
+                        continue
+                    seen.add(key)
+                    r9.instance(f"{os.path.basename(tname)}: from {sk.describe(n.module)[:80]} import ...")
+                    conj = []
+
+                    def flat(f):
+                        if isinstance(f, tuple) and f and f[0] == "&":
+                            flat(f[1]); flat(f[2])
+                        else:
+                            conj.append(f)
+                    for g in sk.guards_of_node(n):
+                        flat(g)
+                    want = f"{e}.meta.address.subpackage == api.subpackage_view"
+                    guarded = any(isinstance(c, tuple) and c[0] == "a" and str(c[1]) == want for c in conj)
+                    in_path = any(c and c.startswith(f"{e}.meta.address.subpackage") for c in canons)
+                    w = sk.where(n)
+                    r9.check(guarded or in_path, os.path.join(os.path.relpath(root, core.REPO), w[0]), w[1], f"from {sk.describe(n.module)[:100]} import ...",
+                             f"the import is emitted for every element of `{e[5:-1]}`, which in a parent view includes protos / services of deeper "
+                             f"sub-packages, but their modules are only emitted below the sub-package (generator skip predicate): the parent "
+                             f"package raises ModuleNotFoundError on import. Add `if <elem>.meta.address.subpackage == api.subpackage_view`")
+
+
 def run(report, pm: PyModel):
+    check_subpackage_listing(report, pm)
     check_with_context_pure(report, pm)
     check_import_closure(report, pm)
     check_module_graph(report, pm)
